@@ -208,8 +208,11 @@ func (s *tstore) Set(id imap.InternalMessageID, r io.Reader) error {
 	s.op("Set")
 	return s.inner.Set(id, r)
 }
-func (s *tstore) Delete(ids ...imap.InternalMessageID) error { s.op("Delete"); return s.inner.Delete(ids...) }
-func (s *tstore) List() ([]imap.InternalMessageID, error)   { s.op("List"); return s.inner.List() }
+func (s *tstore) Delete(ids ...imap.InternalMessageID) error {
+	s.op("Delete")
+	return s.inner.Delete(ids...)
+}
+func (s *tstore) List() ([]imap.InternalMessageID, error) { s.op("List"); return s.inner.List() }
 func (s *tstore) Close() error {
 	err := s.inner.Close()
 	atomic.StoreInt64(&s.closedAt, atomic.AddInt64(&seq, 1))
